@@ -277,6 +277,14 @@ class CallMixin:
                 # text assembled from a comprehension and handed to an opaque callee: the argument is not evaluated
                 yield st, self.opaque_call(op[0], "?." + f.attr, [NONE], {}, st, node)
                 return
+        if isinstance(f, ast.Name) and f.id in ("all", "any") and len(node.args) == 1 and isinstance(node.args[0], (ast.GeneratorExp, ast.ListComp)):
+            op = self.opaque_spec(f.id, f.id)
+            if op is not None and isinstance(op[0], Ty):
+                # a test over a comprehension that the FUC's contract declares opaque: any outcome, the element expressions are not
+                # evaluated (they are assumed free of effects and exceptions - listed as an assumption)
+                self.note_assumption("the comprehension inside %s(...) at line %s is assumed free of effects and exceptions" % (f.id, node.lineno))
+                yield st, self.opaque_call(op[0], f.id, [NONE], {}, st, node)
+                return
         if isinstance(f, ast.Attribute):
             if isinstance(f.value, ast.Call) and isinstance(f.value.func, ast.Name) and f.value.func.id == "super":
                 yield from self.call_super(node, st)
@@ -914,6 +922,8 @@ class CallMixin:
                 dflt = empty_map(ft.key, ft.val)
             if isinstance(dflt, PyList) and not dflt.items and isinstance(ft, TSeq):
                 dflt = empty_seq(ft.elem)
+            if isinstance(dflt, (PyDict, PyList)) and not dflt.items and isinstance(ft, TOpaque):
+                dflt = Val(ft, [z3.Const("empty-literal!%s" % ft.comps()[0], ft.comps()[0])])     # `{}` / `[]` as a value of an opaque field type
             if isinstance(dflt, Val):
                 if fname in ty.required:
                     yield st, Val(ft, obj.terms[lo + 1:hi])
